@@ -438,7 +438,7 @@ func (e *Engine) tryReplay(sr *SolveResult, rf *replayFile) bool {
 		lhs = append(lhs, fmt.Sprintf("r%d", i))
 	}
 	var src strings.Builder
-	fmt.Fprintf(&src, "package %s\n\nimport (\n\t\"fmt\"\n\t\"testing\"\n", pkgName)
+	fmt.Fprintf(&src, "package %s\n\nimport (\n\t\"fmt\"\n\t\"runtime/debug\"\n\t\"testing\"\n", pkgName)
 	useStub := false
 	var ips []string
 	for p := range b.imports {
@@ -477,7 +477,7 @@ func (e *Engine) tryReplay(sr *SolveResult, rf *replayFile) bool {
 		}
 	}
 	src.WriteString("func TestHvcReplay(t *testing.T) {\n")
-	src.WriteString("\tdefer func() {\n\t\tif r := recover(); r != nil {\n\t\t\tfmt.Printf(\"HVC-REPLAY PANIC: %v\\n\", r)\n\t\t}\n\t}()\n")
+	src.WriteString("\tdefer func() {\n\t\tif r := recover(); r != nil {\n\t\t\tfmt.Printf(\"HVC-REPLAY PANIC: %v\\nHVC-REPLAY STACK:\\n%s\\n\", r, debug.Stack())\n\t\t}\n\t}()\n")
 	for _, s := range b.pre {
 		src.WriteString("\t" + s + "\n")
 	}
@@ -494,16 +494,19 @@ func (e *Engine) tryReplay(sr *SolveResult, rf *replayFile) bool {
 	rf.ReplayPkg = fn.Pkg.Pkg.Path()
 	ran, out := runReplayTest(e.repo, dir, rf.ReplayTest)
 	rf.ReplayRan = ran
-	if len(out) > 3000 {
-		out = out[:3000]
-	}
 	rf.ReplayOut = out
+	if len(rf.ReplayOut) > 6000 {
+		rf.ReplayOut = rf.ReplayOut[:6000]
+	}
 	if !ran {
 		return false
 	}
 	switch {
 	case strings.HasPrefix(o.Kind, "safe:"):
-		rf.ReplayFail = strings.Contains(out, "HVC-REPLAY PANIC")
+		// reproduced when the real code panics AT the instruction of the obligation:
+		// the stack of the recovered panic names its file and line (a panic anywhere
+		// else - an input the preconditions exclude, say - is not a reproduction)
+		rf.ReplayFail = strings.Contains(out, "HVC-REPLAY PANIC") && panicAtPos(out, o.Pos)
 	case o.Kind == "post":
 		// reproduced when every scalar result the model predicts is what the real code returns
 		ok := nres > 0
@@ -638,4 +641,27 @@ func (e *Engine) loopCount(fn *ssa.Function) int {
 		}
 	}
 	return n
+}
+
+// panicAtPos: the replay output's stack trace mentions base(file):line of pos.
+func panicAtPos(out, pos string) bool {
+	i := strings.LastIndex(pos, "/")
+	if pos == "" || i < 0 {
+		return false
+	}
+	want := pos[i:] // "/file.go:123"
+	st := strings.Index(out, "HVC-REPLAY STACK:")
+	if st < 0 {
+		return false
+	}
+	for _, l := range strings.Split(out[st:], "\n") {
+		l = strings.TrimSpace(l)
+		if j := strings.Index(l, want); j >= 0 {
+			rest := l[j+len(want):]
+			if rest == "" || rest[0] == ' ' || rest[0] == '+' {
+				return true
+			}
+		}
+	}
+	return false
 }
